@@ -126,6 +126,9 @@ func cmdCheck(args []string) int {
 	for _, n := range names {
 		h := ld.harnesses[n]
 		o := applyHarnessOpts(defaultOpts(*tier), h, *tier)
+		if s := os.Getenv("GOSYM_SOLVER"); s != "" { // cross-check with another back end (tools/run_cross_solver.sh)
+			o.Solver = s
+		}
 		res := ld.explore(h, o)
 		he := harnessEvidence{
 			Name: n, Paths: res.Paths, PathStatus: res.ByStatus, Decisions: res.Decisions, ForkPoints: res.ForkPoints,
